@@ -29,6 +29,7 @@ import (
 	"strings"
 
 	"github.com/ozontech/file.d/decoder"
+	"github.com/ozontech/file.d/logger"
 	insaneJSON "github.com/ozontech/insane-json"
 
 	"verif/harness/hmain"
@@ -125,6 +126,27 @@ func getDec(key string, mk func() (decoder.Decoder, error)) decoder.Decoder {
 	return d
 }
 
+// the decoder of a type name, built the way pipeline.New builds it (decoder.go: TypeFromString, New)
+func newByName(name string, params decoder.Params) (decoder.Decoder, error) {
+	d, err := decoder.New(decoder.TypeFromString(name), params)
+	if err == nil && d == nil {
+		err = fmt.Errorf("decoder.New gave no decoder for %q", name)
+	}
+	return d, err
+}
+
+// the csv decoder of a case (delim ncols mode #data [#prefix]); mode 0 default, 1 continue, 2 fatal, 3 an unknown word
+func csvDec(it []hx.Sx) *decoder.CSVDecoder {
+	delim, ncols, mode := byte(hx.Int(it[0])), int(hx.Int(it[1])), int(hx.Int(it[2]))
+	withPrefix, prefix := len(it) > 4, ""
+	if withPrefix {
+		prefix = hx.Str(it[4])
+	}
+	return getDec(fmt.Sprintf("csv-%d-%d-%d-%v-%q", delim, ncols, mode, withPrefix, prefix), func() (decoder.Decoder, error) {
+		return newByName("csv", csvParams(delim, ncols, mode, prefix, withPrefix))
+	}).(*decoder.CSVDecoder)
+}
+
 func fmtName(b bool) string {
 	if b {
 		return "string"
@@ -154,7 +176,7 @@ func execScan(k int, cs hx.Sx) hx.Sx {
 		it := hx.Items(cs)
 		wc := hx.Truth(it[0])
 		d := getDec(fmt.Sprintf("nginx-%v", wc), func() (decoder.Decoder, error) {
-			return decoder.NewNginxErrorDecoder(decoder.Params{"nginx_with_custom_fields": wc})
+			return newByName("nginx_error", decoder.Params{"nginx_with_custom_fields": wc})
 		})
 		return framed(hx.Bytes(it[1]), func(line []byte) hx.Sx {
 			r, err := d.Decode(line)
@@ -169,7 +191,7 @@ func execScan(k int, cs hx.Sx) hx.Sx {
 		ff, sf := hx.Truth(it[0]), hx.Truth(it[1])
 		params := decoder.Params{"syslog_facility_format": fmtName(ff), "syslog_severity_format": fmtName(sf)}
 		if k == 3 {
-			d := getDec(fmt.Sprintf("s3164-%v-%v", ff, sf), func() (decoder.Decoder, error) { return decoder.NewSyslogRFC3164Decoder(params) })
+			d := getDec(fmt.Sprintf("s3164-%v-%v", ff, sf), func() (decoder.Decoder, error) { return newByName("syslog_rfc3164", params) })
 			return framed(hx.Bytes(it[2]), func(line []byte) hx.Sx {
 				r, err := d.Decode(line)
 				if err != nil {
@@ -180,7 +202,7 @@ func execScan(k int, cs hx.Sx) hx.Sx {
 					hx.B(row.AppName), hx.B(row.ProcID), hx.B(row.Message))
 			})
 		}
-		d := getDec(fmt.Sprintf("s5424-%v-%v", ff, sf), func() (decoder.Decoder, error) { return decoder.NewSyslogRFC5424Decoder(params) })
+		d := getDec(fmt.Sprintf("s5424-%v-%v", ff, sf), func() (decoder.Decoder, error) { return newByName("syslog_rfc5424", params) })
 		return framed(hx.Bytes(it[2]), func(line []byte) hx.Sx {
 			r, err := d.Decode(line)
 			if err != nil {
@@ -201,32 +223,29 @@ func execScan(k int, cs hx.Sx) hx.Sx {
 		})
 	case 5:
 		it := hx.Items(cs)
-		delim, ncols, cont := byte(hx.Int(it[0])), int(hx.Int(it[1])), hx.Truth(it[2])
-		d := getDec(fmt.Sprintf("csv-%d-%d-%v", delim, ncols, cont), func() (decoder.Decoder, error) {
-			cols := make([]any, ncols)
-			for i := range cols {
-				cols[i] = fmt.Sprintf("c%d", i)
-			}
-			p := decoder.Params{"delimiter": string([]byte{delim}), "columns": cols}
-			if cont {
-				p["invalid_line_mode"] = "continue"
-			}
-			return decoder.NewCSVDecoder(p)
-		}).(*decoder.CSVDecoder)
+		d := csvDec(it)
 		return framed(hx.Bytes(it[3]), func(line []byte) hx.Sx {
-			r, err := d.Decode(line)
-			if err != nil {
-				return errObs(msgEnum(err, csvErrs))
+			var out hx.Sx
+			if caughtFatal(func() { // invalid_line_mode=fatal: logger.Fatalf, recorded by the logger's fatal hook
+				r, err := d.Decode(line)
+				if err != nil {
+					out = errObs(msgEnum(err, csvErrs))
+					return
+				}
+				row := r.(decoder.CSVRow)
+				if err := d.CheckInvalidLine(row); err != nil {
+					out = errObs(msgEnum(err, csvErrs))
+					return
+				}
+				fs := make([]hx.Sx, len(row))
+				for i, f := range row {
+					fs[i] = hx.S(f)
+				}
+				out = hx.L(hx.I(0), hx.L(fs...))
+			}) {
+				return errObs(5)
 			}
-			row := r.(decoder.CSVRow)
-			if err := d.CheckInvalidLine(row); err != nil {
-				return errObs(msgEnum(err, csvErrs))
-			}
-			fs := make([]hx.Sx, len(row))
-			for i, f := range row {
-				fs[i] = hx.S(f)
-			}
-			return hx.L(hx.I(0), hx.L(fs...))
+			return out
 		})
 	}
 	panic("c12: unknown scanner")
@@ -281,7 +300,7 @@ func sxBytesList(v hx.Sx) [][]byte {
 func execJSONCut(cs hx.Sx) hx.Sx {
 	it := hx.Items(cs)
 	path, limit, data := hx.Str(it[0]), int(hx.Int(it[1])), hx.Bytes(it[2])
-	d, err := decoder.NewJsonDecoder(decoder.Params{"json_max_fields_size": map[string]any{path: limit}})
+	d, err := decoder.New(decoder.TypeFromString("json"), decoder.Params{"json_max_fields_size": map[string]any{path: limit}})
 	if err != nil {
 		// the configuration is rejected (negative limit after fixes/C12-json-negative-limit.patch):
 		// nothing is cut
@@ -307,6 +326,20 @@ func c12Exec(which int, cs hx.Sx) hx.Sx {
 		return execJSONCutMany(cs)
 	case which == 36:
 		return execJSONRoundTrip(cs)
+	case which == 9:
+		return execJSONKeep(cs)
+	case which == 37:
+		return execJSONArgs(cs)
+	case which == 40:
+		return execSelect(cs)
+	case which == 41:
+		return execParams(cs)
+	case which == 38:
+		return execProto(cs)
+	case which == 50:
+		return execPipeIn(false, cs)
+	case which == 51:
+		return execPipeIn(true, cs)
 	case which >= 31 && which <= 35:
 		return execToJSON(which-30, cs)
 	case which >= 0 && which < 10:
@@ -390,6 +423,12 @@ func scanners() []*scanner {
 		{k: 5, name: "csv", tokens: []string{",", "\"", "a", " ", "\n", "\r"}, scratch: 6, valid: csvValid, suffix: 2, wrap: csvWrap(',', 0, false)},
 		{k: 5, name: "csv-semicolon-2cols", tokens: []string{";", "\"", "a", ",", "\n"}, scratch: 5, valid: nil, wrap: csvWrap(';', 2, false)},
 		{k: 5, name: "csv-tab-continue", tokens: []string{"\t", "\"", "a", "\n"}, scratch: 5, valid: nil, wrap: csvWrap('\t', 2, true)},
+		// invalid_line_mode=fatal (a wrong field count is a Fatal log entry, observable (1 5)) and an unknown mode word
+		// (the default branch of CheckInvalidLine's switch)
+		{k: 5, name: "csv-pipe-fatal", tokens: []string{"|", "\"", "a", "\n"}, scratch: 5, valid: nil,
+			wrap: func(_ *hmain.Ctx, d []byte) hx.Sx { return hx.L(hx.I('|'), hx.I(2), hx.I(2), hx.B(d)) }},
+		{k: 5, name: "csv-unknown-mode", tokens: []string{",", "a", "\n"}, scratch: 5, valid: nil,
+			wrap: func(_ *hmain.Ctx, d []byte) hx.Sx { return hx.L(hx.I(','), hx.I(2), hx.I(3), hx.B(d)) }},
 	}
 }
 
@@ -472,17 +511,17 @@ func c12Gen(c *hmain.Ctx) {
 	for i := 0; i < 3000*c.Scale; i++ {
 		fs := []hx.Sx{
 			hx.B(word(free, 0, 10)), hx.B(word(free, 0, 8)), hx.B(word(free, 0, 4)), // t1 t2 t3: no space
-			hx.B(word(free+" [=,", 0, 6)),            // pid: no ']'
-			hx.B(word(free+" ]=,>", 0, 4)),           // sep: no '['
-			hx.B(word(free+" [=,", 0, 5)),            // num: no ']'
-			hx.B(word("abc []", 0, 7)),               // k1: no '=' ','
-			hx.B(word(free+" []=", 0, 10)),           // client: no ','
-			hx.B(word("abc []", 0, 3)),               // k2
-			hx.B(word(free+" []=", 0, 8)),            // db: no ','
-			hx.B(word("abc[],", 0, 5)),               // k3: no '=' ' '
-			hx.B(word(free+"[]=,", 0, 9)),            // user: no ' '
-			hx.B(word(free+"[]=,", 0, 6)),            // level: no ' '
-			hx.B(word(free+" []=,\n", 0, 40)),        // log
+			hx.B(word(free+" [=,", 0, 6)),     // pid: no ']'
+			hx.B(word(free+" ]=,>", 0, 4)),    // sep: no '['
+			hx.B(word(free+" [=,", 0, 5)),     // num: no ']'
+			hx.B(word("abc []", 0, 7)),        // k1: no '=' ','
+			hx.B(word(free+" []=", 0, 10)),    // client: no ','
+			hx.B(word("abc []", 0, 3)),        // k2
+			hx.B(word(free+" []=", 0, 8)),     // db: no ','
+			hx.B(word("abc[],", 0, 5)),        // k3: no '=' ' '
+			hx.B(word(free+"[]=,", 0, 9)),     // user: no ' '
+			hx.B(word(free+"[]=,", 0, 6)),     // level: no ' '
+			hx.B(word(free+" []=,\n", 0, 40)), // log
 		}
 		c.Do("faithful-postgres", 21, hx.L(fs...), true)
 	}
@@ -522,7 +561,7 @@ func c12Gen(c *hmain.Ctx) {
 		case 3, 4:
 			return hx.L(hx.Bool(r.Bool()), hx.Bool(r.Bool()), hx.B(d))
 		case 5:
-			return hx.L(hx.I(','), hx.I([]int{0, 0, 3, 4}[r.Intn(4)]), hx.Bool(r.Bool()), hx.B(d))
+			return hx.L(hx.I(','), hx.I([]int{0, 0, 3, 4}[r.Intn(4)]), hx.I(r.Intn(4)), hx.B(d))
 		}
 		return hx.B(d)
 	}
@@ -577,6 +616,10 @@ func c12Gen(c *hmain.Ctx) {
 
 	genJSONCut(c)
 	genToJSON(c)
+	genSmall(c)
+	genParams(c)
+	genProto(c)
+	genPipeIn(c)
 }
 
 func asciiTrim(b []byte) []byte {
@@ -596,7 +639,10 @@ func main() {
 	// what cmd/file.d/file.d.go:96-97 sets before anything is decoded (the library defaults are 128 nodes and verbose errors)
 	insaneJSON.DisableBeautifulErrors = true
 	insaneJSON.StartNodePoolSize = 16
+	// Fatal log entries of the package-level logger (csv invalid_line_mode=fatal, Pipeline.Error under is_strict) are
+	// turned into a recorded observable instead of ending the process; everything below Fatal is dropped
+	logger.Instance = fatalLogger().Sugar()
 	hmain.Run(&hmain.Prop{ID: "C12",
-		Rule: "per scanner (cri, postgres, nginx_error, syslog_rfc3164, syslog_rfc5424, csv): exhaustive = every concatenation of up to N tokens of the format's delimiter alphabet, plus every truncation of canonical valid lines followed by every short token sequence; faithful = lines assembled from random well-formed fields; damaged = valid lines with random deletions/insertions of delimiters; nonascii = same with UTF-8 / invalid bytes (totality only); json-cut = json_max_fields_size on generated documents with encoding/json validity before/after; json-cut-shared-decoder = the same with ONE decoder used by 6 goroutines at once (150 repetitions per line; a replay of such a case runs alone); tojson-* = DecodeToJson into one Root for a list of lines (1-132 csv columns, 1-9 SD elements, 15-33 SD params, 0-20 nginx custom fields, wide/narrow/wide), read back through the field list, Dig and the encoder after the line buffer was overwritten; exhaustive-<syslog>-pri = PRI 0..999 and malformed spellings x the four name formats; sweep-<syslog>-timestamp = every timestamp field at and beyond its range; exhaustive-rfc5424-sd-valid = every truncation of an accepted SD part + up to 3 tokens; json-roundtrip-* = the json decoder against encoding/json with the production node pool of 16 (documents of 0-132 fields / elements, meta field, additional decode, nesting to 10001); json-cut-many / json-cut-deep = 13-24 limited strings at once, nesting to 10001. Non-trivial = input of >= 3 bytes for plain enumeration, every other case; distinct = distinct (sub-model, case) text.",
+		Rule: "per scanner (cri, postgres, nginx_error, syslog_rfc3164, syslog_rfc5424, csv): exhaustive = every concatenation of up to N tokens of the format's delimiter alphabet, plus every truncation of canonical valid lines followed by every short token sequence; faithful = lines assembled from random well-formed fields; damaged = valid lines with random deletions/insertions of delimiters; nonascii = same with UTF-8 / invalid bytes (totality only); json-cut = json_max_fields_size on generated documents with encoding/json validity before/after; json-cut-shared-decoder = the same with ONE decoder used by 6 goroutines at once (150 repetitions per line; a replay of such a case runs alone); tojson-* = DecodeToJson into one Root for a list of lines (1-132 csv columns, 1-9 SD elements, 15-33 SD params, 0-20 nginx custom fields, wide/narrow/wide), read back through the field list, Dig and the encoder after the line buffer was overwritten; exhaustive-<syslog>-pri = PRI 0..999 and malformed spellings x the four name formats; sweep-<syslog>-timestamp = every timestamp field at and beyond its range; exhaustive-rfc5424-sd-valid = every truncation of an accepted SD part + up to 3 tokens; json-roundtrip-* = the json decoder against encoding/json with the production node pool of 16 (documents of 0-132 fields / elements, meta field, additional decode, nesting to 10001); json-cut-many / json-cut-deep = 13-24 limited strings at once, nesting to 10001; json-cut-empty-path = the empty string as a configured path; json-keep-exhaustive = jsonCutKeep called directly (limits at and beyond the length); csv cases carry invalid_line_mode default / continue / fatal / an unknown word and an optional prefix; decoder-select = decoder.New(TypeFromString(name)) for the ten names and near misses; params-* = every option of every decoder constructor x a value of every Go type, every byte as csv delimiter, anyToInt spellings, protobuf file / message / import-path failures (stored parameters read back by reflection); protobuf-* = the protobuf decoder on messages written by a hand-made wire encoder with a hand-built expected JSON (valid, every token sequence, truncations, damage; schema as text / file / import paths); pipe-in-* = 3-8 lines through a REAL action-less pipeline per case (pipeline.New by decoder name or auto + SuggestDecoder, own / foreign / no DecoderParams, is_strict, 0-2 meta fields, event pool of two events, the line overwritten before the event is read at the output) for raw, cri, postgres, nginx_error, both syslogs, csv (which 50, event compared field by field with the model) and json / protobuf (which 51, judged against encoding/json / the expected JSON). Non-trivial = input of >= 3 bytes for plain enumeration, every other case; distinct = distinct (sub-model, case) text.",
 		Gen:  c12Gen, Exec: c12Exec})
 }
